@@ -41,6 +41,17 @@ ASSUMPTIONS = [
     'keywords (MetaModel.new and metaclass call alternating), reads, where_eq/dict filters (alternating), serialisation, and the '
     'referential attributes of up to four associations that spell the key in lower / UPPER / Capitalized / swapped case; '
     'the metamodel of this family is defined through MetaModel.define_class / define_association (the calls the loader makes)',
+    'constructor forms that give one attribute a positional AND a keyword value (first family, in every state): per attribute '
+    '(plain, identifying, referential) the positional prefix up to that attribute and all three positional values, the keyword '
+    'under every spelling, through MetaModel.new / MetaClass.new / the metaclass call; judged: every spelling has the outcome of '
+    'the declared one (instance or the same exception type), and an accepted call stores the keyword value (keywords are applied '
+    'after positional values), read under every spelling',
+    'definition family: a metamodel without the class; at most %d rejected uses of the name before the definition (routes %s, '
+    'every spelling; each must raise UnknownClassException), then the definition under every spelling (define_class, or the '
+    'loader populating the metamodel from CREATE TABLE), then one creation (MetaModel.new / clone of an instance of a like-named '
+    'class of another metamodel, every spelling); after the definition every spelling is looked up, selected (many/one/any) and '
+    're-defined (must be refused) in every state. Before the definition no observation is made (it would be a rejected use itself)'
+    % (DEF_MAX_PROBES, ', '.join(DEF_PROBE_ROUTES)),
     'constructor keywords spelled exactly like the python parameters of the constructor routes (self, kind) are sent like any '
     'other spelling (this found F-C10d, repaired)',
 ]
@@ -53,6 +64,13 @@ SQL = ('CREATE TABLE Ab (Id UNIQUE_ID, Xy STRING, R_a UNIQUE_ID);\n'
 DECL = ['Id', 'Xy', 'R_a']
 TYPES = {'ID': 'UNIQUE_ID', 'XY': 'STRING', 'R_A': 'UNIQUE_ID'}
 VALS = {'XY': ['p', 'q', ''], 'ID': [7, 8]}
+
+
+# constructor routes and forms (positional values, keyword value) that give one attribute two values
+MIX_ROUTES = ['model', 'metaclass', 'call']
+MIX_FORMS = {'ID': [([9, 'p', 99], 8), ([9], 8)],
+             'XY': [([9, 'p', 99], 'q'), ([9, 'p'], 'q')],
+             'R_A': [([9, 'p', 99], 2), ([9, 'p', 2], 99), ([9, 'p', 2], None)]}
 
 
 def spellings(name):
@@ -131,6 +149,10 @@ class NameModel(explorer.Model):
         ops.append(['newpos', 'Ab', [9, 'p', 99]])
         ops.append(['new', 'aB', {'xY': 'p', 'iD': 9, 'r_A': 2}])
         ops.append(['newpos', 'AB', [9, 'p', 2]])
+        # one attribute given positionally AND by keyword, the keyword under every spelling; one op per constructor route
+        # (the forms of one route run one after the other in one world)
+        for route in MIX_ROUTES:
+            ops.append(['newmix', route])
         return ops
 
     def step(self, w, op):
@@ -185,6 +207,8 @@ class NameModel(explorer.Model):
                           unit_test=unit_test(hist, op))
         if op[0] in ('new', 'newpos'):
             return self.apply_new(ctx, w, op, bad)
+        if op[0] == 'newmix':
+            return self.apply_newmix(ctx, w, op, bad)
         ctx.count('traces')
         got, exp = self.step(w, op)
         ctx.distinct('outcomes', (op[0], got))
@@ -240,6 +264,67 @@ class NameModel(explorer.Model):
                         bad('new:where_eq', 'where_eq(%s=%r) misses the created instance' % (s, exp[u]), True, hit)
                         return False
         return False       # terminal: constructor forms are not expanded further
+
+    def apply_newmix(self, ctx, w, op, bad):
+        '''Constructor calls that give one attribute a positional value AND a keyword value, the keyword under every
+        spelling: every spelling must have the same outcome as the declared one, and where the call is accepted the
+        keyword value (applied after the positional ones) is the one stored value read under every spelling.'''
+        import xtuml
+        route = op[1]
+        mc = w.m.find_metaclass('Ab')
+        ctx.count('traces')
+        n = 0
+        for u, decl, idx in (('ID', 'Id', 0), ('XY', 'Xy', 1), ('R_A', 'R_a', 2)):
+            for pos, kwv in MIX_FORMS[u]:
+                first = None
+                for s in [decl] + [x for x in self.sp[u] if x != decl]:
+                    ks = self.kinds[n % 4]
+                    n += 1
+                    ctx.count('reads')
+                    ctx.count('mix_forms')
+                    try:
+                        if route == 'model':
+                            inst = w.m.new(ks, *pos, **{s: kwv})
+                        elif route == 'metaclass':
+                            inst = mc.new(*pos, **{s: kwv})
+                        else:
+                            inst = mc(*pos, **{s: kwv})
+                        outcome, detail = 'instance', ''
+                    except Exception as e:
+                        inst, outcome, detail = None, type(e).__name__, ' (%s)' % e
+                    ctx.distinct('outcomes', ('newmix', outcome))
+                    if first is None:
+                        first = outcome, detail
+                    elif outcome != first[0]:
+                        bad('newmix:spellings-differ', '%s route, positional values %r and the keyword %s=%r: %s%s, but under the '
+                            'declared spelling %s: %s%s' % (route, pos, s, kwv, outcome, detail, decl, first[0], first[1]),
+                            first[0], outcome)
+                        return False
+                    if inst is None:
+                        continue
+                    exp = {'ID': None, 'XY': '', 'R_A': None}
+                    for k, v in zip(('ID', 'XY', 'R_A'), pos):
+                        exp[k] = v
+                    exp[u] = kwv
+                    if exp['R_A'] != 2:
+                        exp['R_A'] = None      # a referential value that matches no instance links nothing
+                    for u2 in ('ID', 'XY', 'R_A'):
+                        for s2 in self.sp[u2]:
+                            ctx.count('reads')
+                            g = getattr(inst, s2)
+                            if g != exp[u2]:
+                                bad('newmix:read', '%s route, positional values %r and the keyword %s=%r: the created instance '
+                                    'reads %r under the spelling %r, expected %r' % (route, pos, s, kwv, g, s2, exp[u2]), exp[u2], g)
+                                return False
+                    if exp[u] is not None and DELETED not in w.ref.values():
+                        for s2 in (s,):        # (filters under every spelling for created instances: the 'new' forms)
+                            ctx.count('reads')
+                            sel = list(w.m.select_many(ks, xtuml.where_eq(**{s2: exp[u]})))
+                            if not any(i is inst for i in sel):
+                                bad('newmix:where_eq', '%s route, positional values %r and the keyword %s=%r: where_eq(%s=%r) '
+                                    'misses the created instance' % (route, pos, s, kwv, s2, exp[u]), True, False)
+                                return False
+        return False       # terminal
 
     def check_reads(self, ctx, w, bad, opname):
         import xtuml
@@ -1071,12 +1156,228 @@ class PaletteModel(explorer.Model):
 
 
 # ---------------------------------------------------------------------------------------------------------------------
+# definition family: a metamodel in which the class is NOT defined yet; lookups / selections / creations under some
+# spellings are rejected first, then the class is defined under one spelling, then every spelling must address it
+# ---------------------------------------------------------------------------------------------------------------------
+DEF_KIND = 'Ab'
+DEF_ATTRS = [('Id', 'UNIQUE_ID'), ('Nm', 'STRING')]
+DEF_PROBE_ROUTES = ['find_metaclass', 'find_class', 'select_many', 'select_one', 'new', 'clone']
+DEF_DEFINE_ROUTES = ['define_class', 'loader']
+DEF_CREATE_ROUTES = ['new', 'clone']
+DEF_MAX_PROBES = 2        # rejected uses of the name before the definition, per history
+DEF_SLICE = 32
+DEF_MAX_DEPTH = 8         # closes at depth DEF_MAX_PROBES + 2
+
+
+class DefModel(explorer.Model):
+    def __init__(self, tier, layout='empty', seed=0):
+        self.tier = tier
+        self.layout = layout
+        self.kinds = spellings(DEF_KIND)
+
+    def case(self, hist, op):
+        return dict(family='def', layout=self.layout, hist=hist, op=op, tier=self.tier)
+
+    def build(self, hist):
+        import xtuml
+        w = World()
+        w.m = xtuml.MetaModel(xtuml.IntegerGenerator())
+        w.others = {}
+        w.mc = None
+        w.defined = None
+        w.probed = []
+        w.insts = []
+        for op in hist:
+            self.step(w, op)
+        return w
+
+    def other(self, w, ks):
+        """An instance of a class spelled *ks* in another metamodel (what clone() is given)."""
+        import xtuml
+        if ks not in w.others:
+            o = xtuml.MetaModel(xtuml.IntegerGenerator())
+            o.define_class(ks, DEF_ATTRS)
+            w.others[ks] = o.new(ks, Id=5, Nm='o')
+        return w.others[ks]
+
+    def canon(self, w):
+        proxy = []
+        try:
+            for k, v in sorted(w.m.__dict__.items()):
+                if isinstance(v, (set, frozenset, dict, list, tuple)):
+                    proxy.append([k, len(v)])
+        except Exception:
+            proxy = None
+        return json.dumps([w.defined, sorted(set(map(tuple, w.probed))), len(w.insts), proxy], default=repr)
+
+    def enabled(self, w):
+        ops = []
+        if w.defined is None:
+            if len(w.probed) < DEF_MAX_PROBES:
+                for route in DEF_PROBE_ROUTES:
+                    for ks in self.kinds:
+                        ops.append(['probe', route, ks])
+            for route in DEF_DEFINE_ROUTES:
+                for ks in self.kinds:
+                    ops.append(['define', route, ks])
+        elif not w.insts:
+            for route in DEF_CREATE_ROUTES:
+                for ks in self.kinds:
+                    ops.append(['create', route, ks])
+        return ops
+
+    def use(self, w, route, ks):
+        import xtuml
+        m = w.m
+        if route == 'find_metaclass':
+            return m.find_metaclass(ks)
+        if route == 'find_class':
+            return m.find_class(ks)
+        if route == 'select_many':
+            return list(m.select_many(ks))
+        if route == 'select_one':
+            return m.select_one(ks)
+        if route == 'select_any':
+            return m.select_any(ks)
+        if route == 'new':
+            return m.new(ks, Nm='q')
+        if route == 'clone':
+            return m.clone(self.other(w, ks))
+        raise ValueError(route)
+
+    def step(self, w, op):
+        import xtuml
+        name, route, ks = op
+        exp = None
+        try:
+            if name == 'probe':
+                exp = 'UnknownClassException' if w.defined is None else 'ok'
+                if w.defined is None:
+                    w.probed.append([route, ks])
+                self.use(w, route, ks)
+                return 'ok', exp
+            if name == 'define':
+                exp = 'ok' if w.defined is None else 'MetaModelException'
+                if w.defined is None:
+                    w.defined = ks
+                if route == 'define_class':
+                    w.mc = w.m.define_class(ks, DEF_ATTRS)
+                else:
+                    l = xtuml.ModelLoader()
+                    l.input('CREATE TABLE %s (%s);' % (ks, ', '.join('%s %s' % a for a in DEF_ATTRS)))
+                    l.populate(w.m)
+                    w.mc = list(w.m.metaclasses.values())[0]
+                return 'ok', exp
+            if name == 'create':
+                exp = 'ok' if w.defined is not None else 'UnknownClassException'
+                inst = self.use(w, route, ks)
+                w.insts.append(inst)
+                return 'ok', exp
+        except xtuml.MetaException as e:
+            return type(e).__name__, exp
+        raise ValueError(op)
+
+    def apply(self, ctx, w, op, hist):
+        case = self.case(hist, op)
+
+        def bad(kind, msg, exp=None, got=None):
+            ctx.violation('c10:def:%s' % kind, case, '[class defined after rejected uses] history %s, then %s: %s' %
+                          (hist, op, msg), exp, got, unit_test=def_unit_test(hist, op))
+        ctx.count('traces')
+        ctx.count('def_traces')
+        got, exp = self.step(w, op)
+        ctx.distinct('outcomes', (op[0], got))
+        ctx.distinct('def_outcomes', (op[0], got))
+        if got != exp:
+            bad('%s:outcome' % op[0], '%s(%r) %s, expected %s' % (op[1], op[2], got, exp), exp, got)
+            return False
+        return self.observe(ctx, w, bad, op[0])
+
+    def observe(self, ctx, w, bad, opname):
+        """Every spelling of the class name through every route addresses the one class (not evaluated before the
+        definition: an observation there is a rejected use, i.e. an operation of the history)."""
+        import xtuml
+        if w.defined is None:
+            return True
+        first = w.insts[0] if w.insts else None
+        for ks in self.kinds:
+            for route in ('find_metaclass', 'find_class', 'select_many', 'select_one', 'select_any'):
+                ctx.count('reads')
+                want = {'find_metaclass': w.mc, 'find_class': w.mc.clazz, 'select_many': w.insts}.get(route, first)
+                try:
+                    got = self.use(w, route, ks)
+                except xtuml.MetaException as e:
+                    bad('%s:%s' % (opname, route), '%s(%r) raises %s although the class was defined as %r (rejected uses before '
+                        'the definition: %s)' % (route, ks, type(e).__name__, w.defined, w.probed), 'the class', type(e).__name__)
+                    return False
+                same = (len(got) == len(want) and all(x is y for x, y in zip(got, want))) if route == 'select_many' else got is want
+                if not same:
+                    bad('%s:%s:other' % (opname, route), '%s(%r) gives %r, expected %r' % (route, ks, got, want), repr(want), repr(got))
+                    return False
+            ctx.count('reads')
+            try:
+                w.m.define_class(ks, [('Zz', 'INTEGER')])
+                redefined = True
+            except xtuml.MetaException:
+                redefined = False
+            if redefined or w.m.find_metaclass(w.defined) is not w.mc:
+                bad('%s:define_class' % opname, 'define_class(%r) replaced the class defined as %r' % (ks, w.defined),
+                    'MetaModelException', 'accepted')
+                return False
+        for inst in w.insts:
+            ctx.count('reads')
+            if xtuml.get_metaclass(inst) is not w.mc:
+                bad('%s:metaclass' % opname, 'the created instance belongs to another class than the one defined')
+                return False
+            text = xtuml.serialize_instance(inst)
+            if not norm_text(text).startswith('INSERTINTO%sVALUES(' % w.defined):
+                bad('%s:serialize' % opname, 'serialize_instance gives %r, expected the class name %r' % (text, w.defined),
+                    w.defined, text)
+                return False
+        return True
+
+    def probes(self, ctx, w, hist):
+        case = self.case(hist, ['probe'])
+
+        def bad(kind, msg, exp=None, got=None):
+            ctx.violation('c10:def:%s' % kind, case, '[class defined after rejected uses] state %s: %s' % (hist, msg), exp, got,
+                          unit_test=def_unit_test(hist, None))
+        self.observe(ctx, w, bad, 'state')
+
+
+def def_unit_test(hist, op):
+    lines = ['import xtuml', 'm = xtuml.MetaModel(xtuml.IntegerGenerator())', 'attrs = %r' % (DEF_ATTRS,), '',
+             'def other(ks):', '    o = xtuml.MetaModel(xtuml.IntegerGenerator()); o.define_class(ks, attrs)',
+             "    return o.new(ks, Id=5, Nm='o')", '', 'def use(route, ks):',
+             "    if route == 'new': return m.new(ks, Nm='q')", "    if route == 'clone': return m.clone(other(ks))",
+             '    r = getattr(m, route)(ks)', '    return list(r) if route == "select_many" else r', '',
+             'def probe(route, ks):', '    try: print(route, ks, use(route, ks))',
+             '    except xtuml.MetaException as e: print(route, ks, repr(e))', '']
+
+    def stmt(o):
+        if o[0] in ('probe', 'create'):
+            return 'probe(%r, %r)' % (o[1], o[2])
+        if o[1] == 'define_class':
+            return 'm.define_class(%r, attrs)' % o[2]
+        return "l = xtuml.ModelLoader(); l.input('CREATE TABLE %s (%s);'); l.populate(m)" % (
+            o[2], ', '.join('%s %s' % a for a in DEF_ATTRS))
+    for o in hist:
+        lines.append(stmt(o))
+    if op:
+        lines.append(stmt(op) + '   # <- failing step')
+    lines.append('for ks in %r:' % (spellings(DEF_KIND),))
+    lines.append("    for route in ('find_metaclass', 'find_class', 'select_many', 'select_one', 'select_any'): probe(route, ks)")
+    return '\n'.join(lines)
+
+
+# ---------------------------------------------------------------------------------------------------------------------
 # search to closure over several families at once
 # ---------------------------------------------------------------------------------------------------------------------
 FAMILIES = {
     'twin': dict(model=TwinModel, slice=TWIN_SLICE, max_depth=TWIN_MAX_DEPTH, label='twins'),
     'ref': dict(model=RefModel, slice=REF_SLICE, max_depth=REF_MAX_DEPTH, label='referential chain'),
     'palette': dict(model=PaletteModel, slice=PALETTE_SLICE, max_depth=PALETTE_MAX_DEPTH, label='palette'),
+    'def': dict(model=DefModel, slice=DEF_SLICE, max_depth=DEF_MAX_DEPTH, label='definition'),
 }
 
 
@@ -1192,6 +1493,13 @@ def unit_test(hist, op):
             return 'xtuml.%s(a, c, 1)' % o[0]
         if o[0] == 'new':
             return 'b = m.new(%r, **%r)' % (o[1], o[2])
+        if o[0] == 'newmix':
+            call = {'model': "m.new('Ab', *pos, **{s: v})", 'metaclass': "m.find_metaclass('Ab').new(*pos, **{s: v})",
+                    'call': "m.find_metaclass('Ab')(*pos, **{s: v})"}[o[1]]
+            return ('for u, forms in %r.items():\n    for pos, v in forms:\n        for s in %r[u]:\n'
+                    '            try: b = %s; print(pos, s, v, [b.Id, b.Xy, b.R_a])\n'
+                    '            except Exception as e: print(pos, s, v, repr(e))' %
+                    (MIX_FORMS, dict((n.upper(), spellings(n)) for n in DECL), call))
         return 'b = m.new(%r, *%r)' % (o[1], o[2])
     for o in hist:
         lines.append(stmt(o))
@@ -1208,12 +1516,18 @@ def run(ctx):
     for h in hs[-3:]:
         ctx.sample(dict(history=h))
     ctx.require(res['states'] >= 100, 'too few states (%d)' % res['states'])
-    specs = [('twin', layout) for layout in TWIN_LAYOUTS] + [('ref', 'chain')] + \
+    specs = [('twin', layout) for layout in TWIN_LAYOUTS] + [('ref', 'chain')] + [('def', 'empty')] + \
             [('palette', layout) for layout in palette_layouts(ctx.tier)]
     t1 = ctx.elapsed()
     r = family_bfs(ctx, specs)
     print('  phases: names %.1fs, families %.1fs' % (t1, ctx.elapsed() - t1))
-    r2, r3, r4 = r['twin'], r['ref'], r['palette']
+    r2, r3, r4, r5 = r['twin'], r['ref'], r['palette'], r['def']
+    print('  definition: states=%d depth=%d closed=%s' % (r5['states'], r5['depth'], r5['closed']))
+    ctx.require(r5['states'] >= 1000, 'definition family: too few states (%d)' % r5['states'])
+    ctx.require(h_has(ctx, 'def_outcomes', ('probe', 'UnknownClassException')), 'definition family: no rejected use before the definition')
+    for o in ('define', 'create'):
+        ctx.require(h_has(ctx, 'def_outcomes', (o, 'ok')), 'definition family: no successful %s' % o)
+    ctx.require(ctx.n('mix_forms') >= 1000, 'too few constructor forms with a positional and a keyword value (%d)' % ctx.n('mix_forms'))
     print('  twins: states=%s depth=%d closed=%s' % (r2['per_layout'], r2['depth'], r2['closed']))
     print('  referential chain: states=%d depth=%d closed=%s' % (r3['states'], r3['depth'], r3['closed']))
     print('  palette: %d declared names, states=%d depth=%d closed=%s t=%.1fs' %
@@ -1267,13 +1581,18 @@ def coverage(ctx):
              'closure over two instances of two classes whose attribute names differ only in letter case (leading '
              'underscores included), every operation followed by every read route on both instances; referential family: '
              'closure over (instances alive, links, root identifier, keys of the four instance dicts); palette family: closure over '
-             '(value, keys of the instance dict) per declared spelling',
+             '(value, keys of the instance dict) per declared spelling; definition family: closure over (spelling of the definition, '
+             'set of (route, spelling) rejected before it, instances created, sizes of the containers the metamodel object holds)',
         bounds=dict(names=DECL, case_patterns='all 2^n', values=VALS,
                     twin_family=dict(classes=TWIN_DECL, layouts=TWIN_LAYOUTS, values=TWIN_VALS, states=ctx.n('twin_states'),
                                      transitions=ctx.n('twin_traces')),
                     referential_family=dict(schema=REF_SQL, instances=dict(Ab=1, Cd=2, Ef=1), root_identifier_values=REF_EID,
                                             rejected_write_value=REF_WRITE, filter_values=REF_QUERY,
                                             states=ctx.n('ref_states'), transitions=ctx.n('ref_traces')),
+                    positional_and_keyword_forms=dict(routes=MIX_ROUTES, forms=MIX_FORMS, calls=ctx.n('mix_forms')),
+                    definition_family=dict(class_name=DEF_KIND, probe_routes=DEF_PROBE_ROUTES, define_routes=DEF_DEFINE_ROUTES,
+                                           create_routes=DEF_CREATE_ROUTES, rejected_uses_before_definition=DEF_MAX_PROBES,
+                                           states=ctx.n('def_states'), transitions=ctx.n('def_traces')),
                     palette_family=dict(names=PALETTE[ctx.tier], declared_spellings=palette_layouts(ctx.tier),
                                         accessed='all 2^n case patterns up to %d letters, six patterns beyond' % PALETTE_ALL_PATTERNS,
                                         values=PALETTE_VALS, states=ctx.n('palette_states'),
